@@ -31,6 +31,8 @@ def _mk(kind, custom=True, seed=0, ud=None):
 
     if ud is None:
         ud = unitaries.create_dict(T=torch.tensor([[[0.6, 0.8], [0.8, -0.6]], [[0.0, 0.0], [0.0, 0.0]]], dtype=torch.double)) if custom else None
+        if ud is not None:
+            del ud["Y"]  # a dictionary without one of the default letters: what is saved / loaded is THIS dictionary
     if kind == "positive":
         st = PositiveWaveFunction(2, 3, gpu=False)
     elif kind == "complex":
